@@ -142,6 +142,31 @@ try:
             C.judge("flip-key-bit", pol(1), xml=ksrxml.render_ksr(r2), desc={"bit": bit, "key": ki}, strict=False)
         r2 = clone(req); r2["bundles"][0]["keys"][ki]["flags"] = 257
         C.judge("flip-key-flags", pol(1), xml=ksrxml.render_ksr(r2), strict=False)
+        for pv in (2, 0, 255):
+            r2 = clone(req); r2["bundles"][0]["keys"][ki]["proto"] = pv
+            C.judge("key-protocol-changed-after-signing", pol(1), xml=ksrxml.render_ksr(r2), desc={"protocol": pv}, built="reject")
+        # the children of a bundle in any document order, Key and Signature elements interleaved
+        if nk >= 2:
+            tree_ = ksrxml.ksr_tree(req)
+            reqel = tree_[2][0]
+            bidx = next(i_ for i_, c_ in enumerate(reqel[2]) if c_[0] == "RequestBundle")
+            bname, battrs, bch = reqel[2][bidx]
+            fixed_ = [c_ for c_ in bch if c_[0] not in ("Key", "Signature")]
+            ks_, ss_ = [c_ for c_ in bch if c_[0] == "Key"], [c_ for c_ in bch if c_[0] == "Signature"]
+            for variant_ in range(3):
+                mixed = []
+                a_, b_ = list(ks_), list(ss_)
+                R.shuffle(a_); R.shuffle(b_)
+                if variant_ == 0:
+                    for x_, y_ in zip(a_, b_):
+                        mixed += [x_, y_]
+                elif variant_ == 1:
+                    mixed = b_[:1] + a_ + b_[1:]
+                else:
+                    mixed = a_[:1] + b_ + a_[1:]
+                ch2 = list(reqel[2]); ch2[bidx] = (bname, battrs, fixed_[:2] + mixed + fixed_[2:])
+                doc_ = ksrxml.render_tree((tree_[0], tree_[1], [(reqel[0], reqel[1], ch2)]))
+                C.judge("document-order-interleaved", pol(1), xml=doc_, desc={"layout": variant_}, built="accept")
         # omission / misattribution
         if nk >= 2:
             r2 = clone(req); del r2["bundles"][0]["sigs"][si]
